@@ -1,3 +1,54 @@
+(** C07 — static variable resolution never changes program behaviour.
+    Statements only; proofs in proofs/EnvProofs.v.
+    PARTIAL.  Proved: the core of the argument - whenever the static scope stack describes the
+    dynamic frame chain ([chain_matches]: frame j above the current one binds exactly the names
+    recorded for scope j), a symbol resolved to distance k reads and writes exactly the binding
+    that dynamic lookup finds; and what the resolver computes is the distance of the innermost
+    scope recording the name.  Not proved: that [chain_matches] is maintained by the whole
+    evaluator for every resolvable program (the induction over evaluation); the whole-program
+    statement is decided by the differential check (resolved vs dynamic runs on fresh
+    interpreters, exhaustive binder chains to depth 5). *)
 From WalModel Require Import Eval.
-Theorem tmp : True. Proof. exact I. Qed.
-Print Assumptions tmp.
+From WalModel.proofs Require Import EnvProofs.
+Local Open Scope Z_scope.
+
+(** the resolver's distance: innermost static scope that records the name *)
+Theorem resolver_distance : forall scopes id k0 k,
+  scope_steps scopes id k0 = Some k ->
+  exists j, k = (k0 + j)%nat /\
+            (exists sc, nth_error scopes j = Some sc /\ smem id sc = true) /\
+            forall i sc, (i < j)%nat -> nth_error scopes i = Some sc -> smem id sc = false.
+Proof. exact scope_steps_spec. Qed.
+Print Assumptions resolver_distance.
+
+(** skipping k frames that do not bind a name never changes what lookup finds (any fuel) *)
+Theorem skipping_nonbinding_frames : forall k st id name fid fuel,
+  hop st id k = Some fid ->
+  (forall j fj, (j < k)%nat -> hop st id j = Some fj -> binds st fj name = false) ->
+  find_frame (k + fuel) st id name = find_frame fuel st fid name.
+Proof. exact lookup_skips_nonbinding. Qed.
+Print Assumptions skipping_nonbinding_frames.
+
+(** T-res (core): resolved read = dynamic read, and the frame a resolved assignment stores into
+    is the frame dynamic assignment stores into *)
+Theorem resolution_agrees : forall ev scopes st name k,
+  chain_matches st scopes ->
+  scope_steps scopes name O = Some k ->
+  (k <= List.length (st_frames st))%nat ->
+  alookup name (st_aliases st) = None -> cont_contains (st_cont st) name = Some false ->
+  eval_symbol ev name (Some k) st = eval_symbol ev name None st /\
+  exists fid, hop st (st_cur st) k = Some fid /\ lookup_frame st (st_cur st) name = Some fid.
+Proof. exact resolution_agrees_with_dynamic_lookup. Qed.
+Print Assumptions resolution_agrees.
+
+(** non-vacuity: a two-frame chain (global binds x; a let frame binds y) matches its scope stack,
+    and x resolves to distance 1 *)
+Definition ex_st : state :=
+  mkState [mkFrame [("x", VInt 1)] None; mkFrame [("y", VInt 2)] (Some O)] 1 [] empty_container "" "" [] 0 [] [].
+Example ex_chain : chain_matches ex_st [["y"]; ["x"]] /\ scope_steps [["y"]; ["x"]] "x" O = Some 1%nat.
+Proof.
+  split; [|reflexivity]. intros j sc H.
+  destruct j as [|j]; [cbn in H; injection H as <-|destruct j as [|j]; [cbn in H; injection H as <-|destruct j; discriminate]].
+  - exists 1%nat. split; [reflexivity|]. intros x. unfold binds, amem. cbn. destruct (String.eqb x "y"); reflexivity.
+  - exists O. split; [reflexivity|]. intros x. unfold binds, amem. cbn. destruct (String.eqb x "x"); reflexivity.
+Qed.
